@@ -521,5 +521,8 @@ class ReadV(CheckTestV):
 
 
 def contracts(tier):
+    # "a missing share reads as empty" is decided where the server picks what to test against: StorageServer._evaluate_test_vectors,
+    # under the read-test-write contract of C24 (re-run here)
+    from contracts import C24
     return [ReadShareData(), WriteShareData(), ChangeContainerSize(), WriteV(), WriteVShapes(), CheckTestV(),
-            EmptyShareCheckTestV(), ReadV()]
+            EmptyShareCheckTestV(), ReadV(), C24.SlotTestvReadvWritev()]
